@@ -102,7 +102,7 @@ def judge(ctx: core.Ctx, case: dict[str, Any]) -> None:
     if not d.ok:
         if d.err_class == "UndefinedError":
             ctx.evaluations += 1
-            ctx.violation(f"default-raises:{construct_of(case['source'])}", f"default Undefined raised UndefinedError: {str(d.exc)[:100]} for {case['source']!r:.200}")
+            ctx.violation(f"default-raises:{construct_of(case['source'])}", f"default Undefined raised UndefinedError: {drv.safe_str(d.exc)[:100]} for {case['source']!r:.200}")
             return
         if not d.is_liquid_error:
             ctx.count("non_liquid_error_forwarded_to_C02")
